@@ -801,7 +801,7 @@ Proof.
   exists u. unfold totp_proved.
   destruct (bempty rc_in) eqn:Rc; cbn [negb] in Eq.
   - destruct (c_onetime (e_cfg E)).
-    + destruct (beqb (u_totp_last u) code_in); [inversion Eq|].
+    + destruct (beqb (u_totp_last u) (trim_space code_in)); [inversion Eq|].
       apply bind_ok_inv in Eq as (? & ? & _ & Eq).
       destruct (totp_ok E (u_totp u) code_in) eqn:Tk; cbn [negb] in Eq; inversion Eq; subst.
       repeat split; auto.
@@ -974,7 +974,7 @@ Proof.
   exists u. unfold totp_proved.
   destruct (bempty rc_in) eqn:Rc; cbn [negb] in Eq.
   - destruct (c_onetime (e_cfg E)).
-    + destruct (beqb (u_totp_last u) code_in); [inversion Eq|].
+    + destruct (beqb (u_totp_last u) (trim_space code_in)); [inversion Eq|].
       apply bind_ok_inv in Eq as (? & ? & _ & Eq).
       destruct (totp_ok E (u_totp u) code_in) eqn:Tk; cbn [negb] in Eq; inversion Eq; subst.
       repeat split; auto. intros D; discriminate D.
